@@ -83,7 +83,21 @@ pub fn judge(tx: &tir::Tx, origin: &str, source: Option<&str>, t: &mut Tape, rc:
     let args: BTreeMap<String, ArgValue> = params.iter().map(|(k, ty)| (k.clone(), arg_for(ty, t))).collect();
     let cfg = Cfg::default();
     let mut compiler = pipeline::compiler(&cfg);
+    // the module's free functions are the entry points the resolver uses, the trait methods the ones the
+    // compiler crate's helpers use: both are public, each case goes through one of them
+    let through_free_functions = t.flag();
     let applied = (|| {
+        if through_free_functions {
+            use tx3_tir::reduce as r;
+            let a = stage("apply_args", || r::apply_args(tx.clone(), &args))?;
+            let qs = r::find_queries(&a);
+            let inputs: BTreeMap<String, HashSet<Utxo>> = qs.keys().enumerate().map(|(i, k)| (k.clone(), HashSet::from([some_utxo(i)]))).collect();
+            let a = stage("apply_inputs", || r::apply_inputs(a, &inputs))?;
+            let a = stage("apply_fees", || r::apply_fees(a, 180_000))?;
+            let a = stage("reduce", || r::reduce(a))?;
+            let a = stage("apply_compiler", || a.apply(&mut compiler))?;
+            return stage("reduce2", || r::reduce(a));
+        }
         let a = stage("apply_args", || tx.clone().apply_args(&args))?;
         // queries may have changed shape after arguments were applied; names do not
         let qs = find_queries(&a);
